@@ -322,6 +322,17 @@ def check(ctx):
                 n7 += 1
                 ctx.ob("R11.7", f"{f['key']}|forwards-the-timeout|{name}", _forwarded(e), body.loc(b_),
                        f"{name}(.., {show(e)[:100]}, ..): the futures timeout handed on must be the caller's own Duration (or ZERO), unchanged")
+            # ... and so does the concurrency limit (R11.5 across the Uni / Multi layers): a limit "shared among the consumers" (limit / MAX_STREAMS) reaches
+            # for_each_concurrent as 0 = unlimited whenever it is smaller than the number of streams
+            for ai, a in enumerate(c["args"]):
+                l = op_local(a)
+                if l is None or body.locals[l]["ty"] != "u32": continue
+                e = dg.expr(a)
+                if "concurrency_limit" not in show(e): continue
+                e = util.resolve_capture(fx, f["key"], e)[1]
+                n7 += 1
+                ctx.ob("R11.5", f"{f['key']}|forwards-the-concurrency-limit|{name}", _forwarded(e), body.loc(b_),
+                       f"{name}(.., {show(e)[:100]}, ..): the concurrency limit handed on must be the caller's own value, unchanged")
     for f in fx.fns:
         if f.get("impl_self") != EXE and "futures_timeout" not in str(f["blocks"])[:0]: pass
     import guards as _g
